@@ -30,7 +30,7 @@ from instr import diskcache
 ID = 'C15'
 COQ_PROP = 'C15'
 LEVEL = 'proof'
-TRANSLATE = ['recipes', 'format']     # format: Cache/FanoutCache __getstate__ / __setstate__ / __init__ parameters (recipe objects and handles that travel by pickle)
+TRANSLATE = ['recipes', 'format', 'sql', 'fanout', 'disk']     # format: Cache/FanoutCache __getstate__ / __setstate__ / __init__ parameters (recipe objects and handles that travel by pickle)
 TRUSTED = [
     'atomic layer: one Cache operation / one `with cache.transact(retry=True)` block on the recipe key is one atomic step of model/Recipes.v (this is what C05/C06 state; assumed here, exercised by the schedule-driven correspondence)',
     'translator templates of tools/emit_recipes.py for Lock/RLock/BoundedSemaphore/barrier (AST equality outside the holes)',
